@@ -1,2 +1,209 @@
-(* C20 - placeholder while the proofs are being written *)
-From BD.Api Require Import Model.
+(* C20 - control actions through the API respect the state of the run.
+   This file holds nothing but the property theorems (closed by `exact`), Print Assumptions and Examples.
+   Model: Api/Model.v (`post` = handler.go postAction / processUpdateStatus over client.go GetStatus,
+   GetLatestStatus, GetStatusByRequestID, UpdateStatus, Start, Stop, Retry, ToggleSuspend; cmd/start.go
+   removeQuotes) on the DagStore world; proofs: Api/Proofs.v.
+   Tie to the code: tools/props/C20.py (the real handler over a real client / data store / sockets, the full
+   state x action x argument table and random sequences replayed on `post`, property monitors on the dumps).
+
+   All theorems quantify over EVERY world a (definitions, histories of all DAGs with any number of recorded
+   runs, flags, live agents), every DAG id and every request body; valid / graph_ok (verdicts of the loader and
+   of the graph check on a text), the DAGs directory and the exit status of a spawned retry are universally
+   quantified.  `view a id = Some loc` = client.GetStatus(id) succeeds and the DAG's location is loc;
+   `latest_status a loc` = the status the guards look at (live agent's answer, else last recorded status with
+   running corrected to failed, else none). *)
+From Coq Require Import List String Ascii Bool ZArith.
+Import ListNotations.
+From BD.DagStore Require Import Model.
+From BD.Api Require Import Model Proofs.
+Open Scope string_scope.
+
+(* start while running: 400, world unchanged, nothing spawned *)
+Theorem C20_start_guard : forall valid graph_ok meta_ok dir retry_ok a id b loc,
+  b_action b = Some "start" -> view valid graph_ok dir (a_w a) id = Some loc -> latest_status a loc = st_running ->
+  post valid graph_ok meta_ok dir retry_ok a id b = (400, a, []).
+Proof. exact start_guard. Qed.
+Print Assumptions C20_start_guard.
+
+(* stop while not running: 400, world unchanged, no stop request *)
+Theorem C20_stop_guard : forall valid graph_ok meta_ok dir retry_ok a id b loc,
+  b_action b = Some "stop" -> view valid graph_ok dir (a_w a) id = Some loc -> latest_status a loc <> st_running ->
+  post valid graph_ok meta_ok dir retry_ok a id b = (400, a, []).
+Proof. exact stop_guard. Qed.
+Print Assumptions C20_stop_guard.
+
+Theorem C20_stop_accepted : forall valid graph_ok meta_ok dir retry_ok a id b loc,
+  b_action b = Some "stop" -> view valid graph_ok dir (a_w a) id = Some loc -> latest_status a loc = st_running ->
+  live_get loc (a_live a) <> None ->
+  post valid graph_ok meta_ok dir retry_ok a id b = (200, a, [EStop loc]).
+Proof. exact stop_accepted. Qed.
+Print Assumptions C20_stop_accepted.
+
+(* mark-success / mark-failed while running: 400, world unchanged, nothing started *)
+Theorem C20_mark_guard : forall valid graph_ok meta_ok dir retry_ok a id b act loc,
+  b_action b = Some act -> is_mark act -> view valid graph_ok dir (a_w a) id = Some loc -> latest_status a loc = st_running ->
+  fst (fst (post valid graph_ok meta_ok dir retry_ok a id b)) = 400 /\
+  snd (fst (post valid graph_ok meta_ok dir retry_ok a id b)) = a /\
+  snd (post valid graph_ok meta_ok dir retry_ok a id b) = [].
+Proof. exact mark_guard. Qed.
+Print Assumptions C20_mark_guard.
+
+(* An accepted status edit: the DAG is not running; the run i of THIS DAG whose last status s carries the request
+   id grows by ONE status s' that equals s except for the status of the named step j (and the top-level
+   running -> failed relabel when that run is not the live one); every other run, every other DAG's history,
+   every definition, flag and live agent is unchanged; nothing is started or stopped. *)
+Theorem C20_mark_exact : forall valid graph_ok meta_ok dir retry_ok a id b act loc a' ev,
+  b_action b = Some act -> is_mark act -> view valid graph_ok dir (a_w a) id = Some loc ->
+  post valid graph_ok meta_ok dir retry_ok a id b = (200, a', ev) ->
+  let rs := h_get loc (w_hist (a_w a)) in
+  let rs' := h_get loc (w_hist (a_w a')) in
+  ev = [] /\ a_live a' = a_live a /\ w_defs (a_w a') = w_defs (a_w a) /\ w_flags (a_w a') = w_flags (a_w a) /\
+  (forall l, l <> loc -> h_get l (w_hist (a_w a')) = h_get l (w_hist (a_w a))) /\
+  latest_status a loc <> st_running /\
+  exists i r s j n s',
+    nth_error rs i = Some r /\ last_line r = Some s /\ s_req s = b_reqid b /\
+    nth_error (s_nodes s) j = Some n /\ n_name n = b_step b /\
+    List.length rs' = List.length rs /\
+    (forall k, k <> i -> nth_error rs' k = nth_error rs k) /\
+    nth_error rs' i = Some (mkRun (r_stamp r) (r_lines r ++ [s'])) /\
+    s_req s' = s_req s /\
+    s_st s' = (if Nat.eqb (s_st s) st_running && negb (addressed_live a loc (b_reqid b)) then st_error else s_st s) /\
+    List.length (s_nodes s') = List.length (s_nodes s) /\
+    (forall k, k <> j -> nth_error (s_nodes s') k = nth_error (s_nodes s) k) /\
+    nth_error (s_nodes s') j = Some (mkNode (b_step b) (mark_target act)).
+Proof. exact mark_exact. Qed.
+Print Assumptions C20_mark_exact.
+
+(* An accepted start with parameters free of CR, LF and NUL (params_safe) runs exactly
+   `start -p "<params>" <location>` (`start <location>` for empty parameters) and cmd/start.go's removeQuotes
+   gives back exactly the parameters; the world is unchanged. *)
+Theorem C20_start_params : forall valid graph_ok meta_ok dir retry_ok a id b loc,
+  b_action b = Some "start" -> view valid graph_ok dir (a_w a) id = Some loc -> latest_status a loc <> st_running ->
+  params_safe (b_params b) = true -> has_char ch_nul loc = false ->
+  (b_params b = "" /\ post valid graph_ok meta_ok dir retry_ok a id b = (200, a, [ESpawn ["start"; loc]])) \/
+  (b_params b <> "" /\ exists q, post valid graph_ok meta_ok dir retry_ok a id b = (200, a, [ESpawn ["start"; "-p"; q; loc]]) /\
+                                 remove_quotes q = b_params b).
+Proof. exact start_params. Qed.
+Print Assumptions C20_start_params.
+
+(* C20_start_params for ALL parameter strings is FALSE (F20a) - and the premise is the exact class:
+   any CR or LF is rewritten, any NUL means nothing is started. *)
+Theorem C20_start_params_refuted :
+  exists p, params_safe p = false /\ remove_quotes (quote (escape_arg p)) <> p /\
+            remove_quotes (quote (escape_arg p)) = "l1" ++ String ch_bslash "nl2".
+Proof. exact start_params_refuted. Qed.
+Print Assumptions C20_start_params_refuted.
+
+Theorem C20_start_params_crlf_rewritten : forall p,
+  has_char ch_cr p || has_char ch_lf p = true -> remove_quotes (quote (escape_arg p)) <> p.
+Proof. exact start_params_crlf_rewritten. Qed.
+Print Assumptions C20_start_params_crlf_rewritten.
+
+Theorem C20_start_params_nul_nothing : forall p loc, has_char ch_nul p = true -> spawn (start_argv p loc) = [].
+Proof. exact start_params_nul_nothing. Qed.
+Print Assumptions C20_start_params_nul_nothing.
+
+(* Whatever the world, the DAG id and the body: an answer other than 200 means the world is unchanged and nothing
+   was started or stopped (only a retry whose process then fails has been started).  For action rename the
+   premise name_okb (C18: refuted for names with a foreign extension). *)
+Theorem C20_refused_nothing : forall valid graph_ok meta_ok dir retry_ok a id b c a' ev,
+  post valid graph_ok meta_ok dir retry_ok a id b = (c, a', ev) -> c <> 200 ->
+  (b_action b = Some "rename" -> name_okb dir id = true /\ name_okb dir (b_value b) = true) ->
+  a' = a /\ (ev = [] \/ (b_action b = Some "retry" /\ b_reqid b <> "" /\ retry_ok = false)).
+Proof. exact refused_nothing. Qed.
+Print Assumptions C20_refused_nothing.
+
+(* ... and these requests ARE refused: missing action, unknown action, unknown DAG, missing request id, missing
+   step, unknown request id, unknown step, retry without request id, rename without a name, save of a rejected text *)
+Theorem C20_refused_missing_action : forall valid graph_ok meta_ok dir retry_ok a id b,
+  b_action b = None -> post valid graph_ok meta_ok dir retry_ok a id b = (400, a, []).
+Proof. exact refused_missing_action. Qed.
+Print Assumptions C20_refused_missing_action.
+
+Theorem C20_refused_unknown_action : forall valid graph_ok meta_ok dir retry_ok a id b act,
+  b_action b = Some act -> known_action act = false -> post valid graph_ok meta_ok dir retry_ok a id b = (400, a, []).
+Proof. exact refused_unknown_action. Qed.
+Print Assumptions C20_refused_unknown_action.
+
+Theorem C20_refused_unknown_dag : forall valid graph_ok meta_ok dir retry_ok a id b act,
+  b_action b = Some act -> act <> "save" -> view valid graph_ok dir (a_w a) id = None ->
+  post valid graph_ok meta_ok dir retry_ok a id b = (400, a, []).
+Proof. exact refused_unknown_dag. Qed.
+Print Assumptions C20_refused_unknown_dag.
+
+Theorem C20_refused_mark_malformed : forall valid graph_ok meta_ok dir retry_ok a id b act loc,
+  b_action b = Some act -> is_mark act -> view valid graph_ok dir (a_w a) id = Some loc ->
+  (b_reqid b = "" \/ b_step b = "") -> post valid graph_ok meta_ok dir retry_ok a id b = (400, a, []).
+Proof. exact refused_mark_malformed. Qed.
+Print Assumptions C20_refused_mark_malformed.
+
+Theorem C20_refused_mark_unknown_request : forall valid graph_ok meta_ok dir retry_ok a id b act loc,
+  b_action b = Some act -> is_mark act -> view valid graph_ok dir (a_w a) id = Some loc ->
+  pick_idx (b_reqid b) (h_get loc (w_hist (a_w a))) = None ->
+  snd (fst (post valid graph_ok meta_ok dir retry_ok a id b)) = a /\
+  snd (post valid graph_ok meta_ok dir retry_ok a id b) = [] /\
+  fst (fst (post valid graph_ok meta_ok dir retry_ok a id b)) <> 200.
+Proof. exact refused_mark_unknown_request. Qed.
+Print Assumptions C20_refused_mark_unknown_request.
+
+Theorem C20_refused_mark_unknown_step : forall valid graph_ok meta_ok dir retry_ok a id b act loc,
+  b_action b = Some act -> is_mark act -> view valid graph_ok dir (a_w a) id = Some loc ->
+  (forall r s, In r (h_get loc (w_hist (a_w a))) -> last_line r = Some s ->
+               forall n, In n (s_nodes s) -> n_name n <> b_step b) ->
+  snd (fst (post valid graph_ok meta_ok dir retry_ok a id b)) = a /\
+  snd (post valid graph_ok meta_ok dir retry_ok a id b) = [] /\
+  fst (fst (post valid graph_ok meta_ok dir retry_ok a id b)) <> 200.
+Proof. exact refused_mark_unknown_step. Qed.
+Print Assumptions C20_refused_mark_unknown_step.
+
+Theorem C20_refused_retry_missing_request : forall valid graph_ok meta_ok dir retry_ok a id b,
+  b_action b = Some "retry" -> b_reqid b = "" -> post valid graph_ok meta_ok dir retry_ok a id b = (400, a, []).
+Proof. exact refused_retry_missing_request. Qed.
+Print Assumptions C20_refused_retry_missing_request.
+
+Theorem C20_refused_rename_missing_name : forall valid graph_ok meta_ok dir retry_ok a id b,
+  b_action b = Some "rename" -> b_value b = "" -> post valid graph_ok meta_ok dir retry_ok a id b = (400, a, []).
+Proof. exact refused_rename_missing_name. Qed.
+Print Assumptions C20_refused_rename_missing_name.
+
+Theorem C20_refused_save_invalid : forall valid graph_ok meta_ok dir retry_ok a id b,
+  b_action b = Some "save" -> valid (b_value b) = false -> post valid graph_ok meta_ok dir retry_ok a id b = (500, a, []).
+Proof. exact refused_save_invalid. Qed.
+Print Assumptions C20_refused_save_invalid.
+
+(* Non-vacuity: a DAG with an older failed run, a current run (running with a live agent / recorded running with
+   nobody listening / failed) and a neighbour DAG with its own run and flag. *)
+Example C20_ex_guards :
+  post ok_all ok_all ok_all "/d" true a_running "a" (bd "start" "" "" "p") = (400, a_running, []) /\
+  post ok_all ok_all ok_all "/d" true a_failed "a" (bd "stop" "" "" "") = (400, a_failed, []) /\
+  post ok_all ok_all ok_all "/d" true a_running "a" (bd "mark-success" "rc" "s1" "") = (400, a_running, []) /\
+  post ok_all ok_all ok_all "/d" true a_running "a" (bd "stop" "" "" "") = (200, a_running, [EStop "/d/a.yaml"]) /\
+  view ok_all ok_all "/d" (a_w a_running) "a" = Some "/d/a.yaml" /\ latest_status a_running "/d/a.yaml" = st_running /\
+  latest_status a_failed "/d/a.yaml" = 2%nat /\ latest_status a_crashed "/d/a.yaml" = 2%nat.
+Proof. exact ex_guards. Qed.
+
+Example C20_ex_mark_exact :
+  post ok_all ok_all ok_all "/d" true a_crashed "a" (bd "mark-success" "rc" "s2" "") =
+    (200, mkA (world_ex [mkStatus "rc" 1 [mkNode "s1" 4; mkNode "s2" 1]; mkStatus "rc" 2 [mkNode "s1" 4; mkNode "s2" 4]]) [], []) /\
+  post ok_all ok_all ok_all "/d" true a_failed "a" (bd "mark-failed" "ro" "s2" "") =
+    (200, mkA (mkW [("/d/a.yaml", "T1"); ("/d/ab.yaml", "T1")]
+               [("/d/a.yaml", [mkRun 1000 [mkStatus "ro" 2 [mkNode "s1" 2; mkNode "s2" 0]; mkStatus "ro" 2 [mkNode "s1" 2; mkNode "s2" 2]];
+                               mkRun 2000 [mkStatus "rc" 1 [mkNode "s1" 1; mkNode "s2" 0]; mkStatus "rc" 2 [mkNode "s1" 4; mkNode "s2" 2]]]);
+                ("/d/ab.yaml", [mkRun 5000 [mkStatus "rn" 2 [mkNode "s1" 4; mkNode "s2" 2]]])] ["ab.suspend"]) [], []).
+Proof. exact ex_mark_exact. Qed.
+
+Example C20_ex_start_params :
+  post ok_all ok_all ok_all "/d" true a_failed "a" (bd "start" "" "" "x=1 y") =
+    (200, a_failed, [ESpawn ["start"; "-p"; quote "x=1 y"; "/d/a.yaml"]]) /\
+  params_safe "x=1 y" = true /\ remove_quotes (quote "x=1 y") = "x=1 y".
+Proof. exact ex_start_params. Qed.
+
+Example C20_ex_refused :
+  post ok_all ok_all ok_all "/d" true a_failed "a" (mkBody None "" "rc" "s1" "") = (400, a_failed, []) /\
+  post ok_all ok_all ok_all "/d" true a_failed "a" (bd "frobnicate" "rc" "s1" "") = (400, a_failed, []) /\
+  post ok_all ok_all ok_all "/d" true a_failed "a" (bd "mark-success" "" "s1" "") = (400, a_failed, []) /\
+  post ok_all ok_all ok_all "/d" true a_failed "a" (bd "mark-success" "rc" "" "") = (400, a_failed, []) /\
+  post ok_all ok_all ok_all "/d" true a_failed "a" (bd "mark-success" "rc" "zz" "") = (400, a_failed, []) /\
+  post ok_all ok_all ok_all "/d" true a_failed "a" (bd "mark-success" "rn" "s1" "") = (500, a_failed, []) /\
+  post ok_all ok_all ok_all "/d" true a_failed "nope" (bd "start" "" "" "") = (400, a_failed, []).
+Proof. exact ex_refused. Qed.
